@@ -48,3 +48,52 @@ Example c07_nonvacuous :
   times_from 0 ops /\
   snd (srun empty_store ops) = [OAdd true; OAdd true; OFind [a]; OFind []].
 Proof. vm_compute. repeat split; discriminate. Qed.
+
+(* ------------------------------------------------------------------ the executable checker and the spec
+   [c07_ok] (run/Run_Storage.v) is the checker that is evaluated on the outputs OBSERVED from the real
+   implementation.  It decides the specification above: for every script and EVERY list of observed
+   outputs (of any length and shape, lookups with duplicates included), the checker raises no alarm
+   iff  the observed trace satisfies [spec_trace].  (The equivalence needs no hypothesis on the time
+   stamps; the hypothesis is kept in the first two statements only to match the setting of
+   [c07_refines_spec].) *)
+From BT Require Import run.Run_Storage proofs.Checker_Storage_Facts.
+
+(* soundness: a trace the checker accepts satisfies the formal spec *)
+Theorem c07_checker_sound : forall (ops : list (Z * sop)) (t0 : Z) (obs : list sout),
+  times_from t0 ops ->
+  c07_ok ops obs = None ->
+  spec_trace aempty ops obs.
+Proof. exact c07_ok_sound. Qed.
+
+(* completeness: no alarm on any trace that satisfies the spec *)
+Theorem c07_checker_complete : forall (ops : list (Z * sop)) (t0 : Z) (obs : list sout),
+  times_from t0 ops ->
+  spec_trace aempty ops obs ->
+  c07_ok ops obs = None.
+Proof. exact c07_ok_complete. Qed.
+
+(* both, without any hypothesis on the time stamps *)
+Theorem c07_checker_decides_spec : forall (ops : list (Z * sop)) (obs : list sout),
+  c07_ok ops obs = None <-> spec_trace aempty ops obs.
+Proof. exact c07_ok_iff_spec. Qed.
+
+(* the checker never rejects the model's own trace *)
+Theorem c07_checker_accepts_model : forall (ops : list (Z * sop)) (t0 : Z),
+  times_from t0 ops ->
+  c07_ok_model ops = None.
+Proof. exact c07_ok_model_silent. Qed.
+
+Print Assumptions c07_checker_sound.
+Print Assumptions c07_checker_complete.
+Print Assumptions c07_checker_decides_spec.
+Print Assumptions c07_checker_accepts_model.
+
+(* non-vacuity: the checker accepts the correct trace of the history above and flags, at the right
+   index, a trace that still returns the peer at exactly 24 h *)
+Example c07_checker_nonvacuous :
+  let a := mkAddr false 167772161 6881 in
+  let ops := [(0, SAdd (7%N, a)); (10, SAdd (7%N, a)); (86400000000009, SFind 7%N); (86400000000010, SFind 7%N)] in
+  c07_ok ops [OAdd true; OAdd true; OFind [a]; OFind []] = None /\
+  c07_ok ops [OAdd true; OAdd true; OFind [a]; OFind [a]] = Some 3%N /\
+  c07_ok ops [OAdd true; OAdd true; OFind [a; a]; OFind []] = Some 2%N.
+Proof. vm_compute. repeat split. Qed.
